@@ -145,6 +145,15 @@ CHECKS = {
              "the raw body; the value must equal ast.literal_eval of the equivalent Python literal, unrecognised escapes "
              "must be LexException, CR/CRLF read as LF, bracket content is verbatim minus one leading newline.",
         note="CPython decides escape decoding (\\N{...}, \\U) -- the property names Python as the reference."),
+    "C24": dict(
+        engine="literals", level="model_checking", design="5.4, 6/C24",
+        technique="generated f-string structures rendered as Hy and Python source, evaluated on both; the Hy text is "
+                  "validated by TLC against the reader spec's f-string machinery (also enumerated on all short field texts)",
+        text="Components (literal text with brace and named escapes, fields with = debugging, conversions and nested "
+             "format specs, malformed variants) are rendered both ways; hy.eval of the Hy f-string must equal eval of the "
+             "Python f-string (or both be syntax errors); HyReader's field machine is checked exhaustively against the real "
+             "reader on every f\"{... text <= 4 (thorough 5) characters and on the generated texts via file mode.",
+        note="CPython's f-string evaluation is the reference; = debugging is compared for bare variables only."),
     "C26": dict(
         engine="literals", level="model_checking", design="5.4, 6/C26",
         technique="constructor success vs reading the corresponding text, on every short string; the reader is bound to "
